@@ -635,7 +635,25 @@ pub fn fuzz_one<P: Property>(p: &P, data: &[u8]) -> Option<String> {
     let mut cfg = Config::default();
     cfg.failure_persistence = None;
     cfg.source_file = None;
-    let rng = TestRng::from_seed(RngAlgorithm::PassThrough, data);
+    if data.len() < 8 {
+        return None;
+    }
+    // when the input is exhausted the pass-through RNG yields zeros for ever, on which some samplers spin;
+    // append a long pseudo-random tail derived from the input so generation always terminates
+    let mut buf = data.to_vec();
+    let mut x = {
+        let mut h = DefaultHasher::new();
+        data.hash(&mut h);
+        h.finish() | 1
+    };
+    let tail_words: usize = std::env::var("PVERIF_FUZZ_TAIL").ok().and_then(|s| s.parse().ok()).unwrap_or(2048);
+    for _ in 0..tail_words {
+        x ^= x << 13;
+        x ^= x >> 7;
+        x ^= x << 17;
+        buf.extend_from_slice(&x.to_le_bytes());
+    }
+    let rng = TestRng::from_seed(RngAlgorithm::PassThrough, &buf);
     let mut runner = TestRunner::new_with_rng(cfg, rng);
     let strat = p.strategy(Tier::Quick);
     let case = match strat.new_tree(&mut runner) {
